@@ -740,6 +740,24 @@ void updateUnitsNameUsages(const std::string &oldName, const std::string &newNam
     }
 }
 
+using VariableUnitsNames = std::vector<std::pair<VariablePtr, std::string>>;
+
+void recordVariablesUnitsNames(const ComponentPtr &component, VariableUnitsNames &names, std::vector<ComponentPtr> &components)
+{
+    components.push_back(component);
+    if (!component->isImport()) {
+        for (size_t variableIndex = 0; variableIndex < component->variableCount(); ++variableIndex) {
+            auto variable = component->variable(variableIndex);
+            if (variable->units() != nullptr) {
+                names.emplace_back(variable, variable->units()->name());
+            }
+        }
+    }
+    for (size_t index = 0; index < component->componentCount(); ++index) {
+        recordVariablesUnitsNames(component->component(index), names, components);
+    }
+}
+
 StringStringMap transferUnitsRenamingIfRequired(const ModelPtr &sourceModel, const ModelPtr &targetModel, const UnitsPtr &units, const ComponentPtr &component)
 {
     StringStringMap changedNames;
@@ -857,6 +875,11 @@ ComponentPtr flattenComponent(const ComponentEntityPtr &parent, ComponentPtr &co
         // model encapsulates below the import element join afterwards: the units they use are the importing model's.
         std::vector<UnitsPtr> requiredUnits = unitsUsed(clonedImportModel, importedComponentCopy);
 
+        // The names by which the library refers to units: all name changes are applied to these, at once, at the end.
+        VariableUnitsNames libraryUnitsNames;
+        std::vector<ComponentPtr> libraryComponents;
+        recordVariablesUnitsNames(importedComponentCopy, libraryUnitsNames, libraryComponents);
+
         while (component->componentCount() > 0) {
             importedComponentCopy->addComponent(component->component(0));
         }
@@ -942,7 +965,7 @@ ComponentPtr flattenComponent(const ComponentEntityPtr &parent, ComponentPtr &co
                     }
                 }
             }
-            StringStringMap changedNames = transferUnitsRenamingIfRequired(clonedImportModel, flatModel, replacementUnits, importedComponentCopy);
+            StringStringMap changedNames = transferUnitsRenamingIfRequired(clonedImportModel, flatModel, replacementUnits, nullptr);
             if (!changedNames.empty()) {
                 unitNamesToReplace.merge(changedNames);
             }
@@ -954,8 +977,22 @@ ComponentPtr flattenComponent(const ComponentEntityPtr &parent, ComponentPtr &co
             if (match != unitNamesToReplace.end()) {
                 finalUnitsName = match->second;
             }
-            UnitsPtr targetUnits = flatModel->units(finalUnitsName);
-            updateUnitsNameUsages(alias.first, finalUnitsName, importedComponentCopy, targetUnits);
+            unitNamesToReplace.emplace(alias.first, finalUnitsName);
+        }
+
+        // Apply every change of units name at once, to the names the library used: applied one after the other, a change
+        // X -> Y followed by a change Y -> Z (the library's own, different Y) would drag the former users of X along.
+        for (const auto &entry : libraryUnitsNames) {
+            const auto match = unitNamesToReplace.find(entry.second);
+            if (match != unitNamesToReplace.end()) {
+                auto targetUnits = flatModel->units(match->second);
+                if (targetUnits != nullptr) {
+                    entry.first->setUnits(targetUnits);
+                }
+            }
+        }
+        for (const auto &libraryComponent : libraryComponents) {
+            findAndReplaceComponentCnUnitsNames(libraryComponent, unitNamesToReplace);
         }
     }
 
